@@ -306,6 +306,12 @@ def check_hexital_chain(scn):
         if as_dict:
             key = next(k for k, v in I.INDICATOR_MAP.items() if v is getattr(I, kind))
             return {"indicator": key, **kw}
+        if scn.get("used"):
+            # an object that already calculated on a few candles of its own (its helper indicators, at every depth, exist and are
+            # attached to that first list) before the Hexital adopts it
+            o = getattr(I, kind)(candles=mk_candles(scn["stream"][: scn["used"]]), **kw)
+            o.calculate()
+            return o
         return getattr(I, kind)(**kw)
 
     src = member(scn["src"][0], scn["src"][1], scn.get("dicts"))
@@ -336,7 +342,7 @@ def case_hexital_chain(rng, idx, params):
     sp = rng.randint(2, 5)
     src_kw = {"period": sp}
     name = f"{sk}_{sp}"
-    rk = rng.choice(["SMA", "EMA", "RMA", "WMA", "RSI", "StandardDeviation", "TSI", "BBANDS", "StandardDeviationThreshold", "HMA", "MACD"])
+    rk = rng.choice(["SMA", "EMA", "RMA", "WMA", "RSI", "StandardDeviation", "TSI", "BBANDS", "StandardDeviationThreshold", "HMA", "MACD", "STOCH", "KC"])
     rkw = {"input_value": name}
     if rk == "MACD":
         rkw.update(fast_period=2, slow_period=rng.randint(3, 5), signal_period=2)
@@ -346,7 +352,9 @@ def case_hexital_chain(rng, idx, params):
     stream, meta = gen.gen_stream(rng, n, price_style=rng.choice(["walk", "flat", "rising", "repeat", "jumpy"]), ts_style="regular", step=60)
     scn = {"check": "c09.hexital-chain", "src": [sk, src_kw], "rdr": [rk, rkw], "reader_first": rng.random() < 0.6, "dicts": rng.random() < 0.4,
            "stream": stream, "init": rng.randint(0, n // 2)}
+    if not scn["dicts"] and rng.random() < 0.35:
+        scn["used"] = rng.randint(1, 5)
     bad = check_hexital_chain(scn)
     viol = {"scenario": scn, **bad} if bad else None
-    meta.update({"kind": "hexital-chain:" + rk, "reader_first": scn["reader_first"]})
+    meta.update({"kind": "hexital-chain:" + rk, "used": bool(scn.get("used")), "reader_first": scn["reader_first"]})
     return {"nontrivial": True, "key": hash(str(scn)), "violation": viol, "meta": meta, "evals": n, "sample": None}
